@@ -9,7 +9,9 @@ from common import Rng
 
 RULE = ("argument vectors: grammar-generated queries, token-level mutations (delete/duplicate/transpose/truncate/"
         "insert), token soups of length 1..16 over keywords/operators/brackets/quotes/numbers/globs/paths, and every "
-        "scalar function applied to ill-typed/out-of-range arguments; (a) model-vs-Rust Parser::parse in-process "
+        "scalar function applied to ill-typed/out-of-range arguments, typed columns compared with literals at and beyond "
+        "the edge of what the column type can interpret (overflowing size units, impossible dates, regex/glob "
+        "fragments); (a) model-vs-Rust Parser::parse in-process "
         "(structural JSON comparison), (b) the dev binary on a small tree incl. a FIFO: status in {0,1,2}, no panic "
         "marker, no timeout, parse-time rejection prints no row. distinct = distinct argv; nontrivial = all "
         "(every argv reaches the lexer)")
@@ -22,6 +24,17 @@ FUNCS = ["lower", "upper", "initcap", "length", "to_base64", "from_base64", "con
 BAD_ARGS = ["x", "''", "-1", "0", "1.5", "99999999999999999999", "-2147483648", "2147483648", "name", "size", "'%'",
             "'%.99999999999'", "'%.3 q'", "'2024-13-45'", "'2024-02-29 25:61:61'", "'-x'", "'+999'", "modified",
             "'٣'", "-9223372036854775808", "9223372036854775807", "'NaN'", "'inf'", "1e400", "''''"]
+
+
+# literals at and beyond the edges of what a typed column can interpret
+EDGE_LITS = ["16777216t", "18446744073709551615k", "18446744073709551616", "18446744073709551615kb", "9223372036854775807m",
+             "17179869184g", "18014398509481984kib", "99999999999999999999g", "1e30k", "1e400", "-1k", "1.5.5m", "0x10", "k", "mb",
+             "1 k", "٣k", "9999-12-31", "0000-01-01", "2024-02-30", "2024-12-31 24:00:00", "262143-01-01", "+99999999999",
+             "-99999999999", "yesterdayy", "tru", "2", "-0", "1e5", "00000000000000000000001", "4294967296", "0o777", "-rwx",
+             "rwxrwxrwxrwx", "%", "[", "(", "a{99999}", "\\", "*{", "?{1,2}"]
+EDGE_COLS = ["size", "size", "size", "fsize", "modified", "is_dir", "mode", "name", "uid", "hardlinks", "line_count", "path", "ext",
+             "user_read", "accessed", "length(name)", "size + 1", "is_symlink", "blocks"]
+EDGE_OPS = ["=", "!=", ">", "<", ">=", "<=", "===", "like", "=~", "between", "in", "not like"]
 
 
 def canon_parse(resp):
@@ -48,9 +61,20 @@ def gen_argv(r):
         for _ in range(r.range(1, 3)):
             ws = gen.mutate_words(r, ws)
         return ("mutated", [gen.join_words(ws)] if r.chance(1, 2) else ws)
-    if k < 9:
+    if k < 8:
         ws = gen.token_soup(r, r.range(1, 16))
         return ("soup", [" ".join(ws)] if r.chance(1, 2) else ws)
+    if r.chance(1, 2):
+        col, op, lit = r.choice(EDGE_COLS), r.choice(EDGE_OPS), r.choice(EDGE_LITS)
+        if " " in lit or lit[0] in "(%[*?\\" or r.chance(1, 3):
+            lit = "'%s'" % lit
+        if op == "between":
+            cond = "%s between %s and %s" % (col, lit, r.choice(EDGE_LITS + ["10"]))
+        elif op == "in":
+            cond = "%s in (%s, %s)" % (col, lit, r.choice(EDGE_LITS))
+        else:
+            cond = "%s %s %s" % (col, op, lit)
+        return ("edge-literal", ["name from . where %s" % cond])
     f = r.choice(FUNCS)
     n = r.below(4)
     args = [r.choice(BAD_ARGS) for _ in range(n)]
